@@ -54,6 +54,9 @@ func c05Run(f []string) string {
 	if ans, ok := c05StageRun(f); ok {
 		return ans
 	}
+	if f[0] == "sigagg" {
+		return c05SigAgg(f)
+	}
 	if f[0] != "agg" {
 		return "bad-op"
 	}
@@ -188,6 +191,7 @@ func c05Gen(r *Rand, tier string) []string {
 	}
 	out = append(out, c05LocksetGen(r, tier)...)
 	out = append(out, c05StageCases(r, tier, []string{"d"})...)
+	out = append(out, c05SigGen(r, tier)...)
 	return append(out, aggTraceGen(r, tier)...)
 }
 
@@ -210,6 +214,11 @@ func c05Stats(cases []string) map[string]int {
 			continue
 		}
 		if c05LocksetStats(st, c) {
+			continue
+		}
+		if f[0] == "sigagg" {
+			st["sigagg.cases"]++
+			st["sigagg.sampled_before_return.total"] = c05SigSampled
 			continue
 		}
 		if f[0] == "stages" {
